@@ -187,8 +187,8 @@ def duration_dispatch(prog, rep):
         is_real = (f"isinstance({p}, numbers.Real)", True) in s.opaque
         w = [a for a in s.state.vals if a == "self.duration" or a == "self[duration]" or a.startswith("self")]
         stored = None
-        for n in walk_own(fi.node):
-            if isinstance(n, ast.Assign) and n.lineno in s.lines and norm(n.targets[0]) == "self['duration']":
+        for n in s.stmts:
+            if isinstance(n, ast.Assign) and norm(n.targets[0]) == "self['duration']":
                 stored = norm(n.value)
         if is_td:
             seen["td"] = True
